@@ -82,11 +82,66 @@ let send = function
        if s_bool err_other || not (s_bool ok_other) then
          r := Propfail ("bbc.send.spurious-failure", "a failure fragment for another transmission id made Send fail") :: !r
        else if (match fo with f :: _ -> f.f_tid <> next_tid (s_n cur) | [] -> true) then r := Mismatch "sendfail: unexpected id" :: !r;
+       (* the train sent while the foreign report was pending must be a complete train *)
+       if not (s_bool err_other) && s_bool ok_other then begin
+         let n = List.length fo in
+         List.iteri (fun i f ->
+             if int_of_n (f_seq f) <> (i + 1) mod 16 then r := Propfail ("bbc.train.sequence", Printf.sprintf "Send with a foreign failure report pending: fragment %d carries sequence number %d" i (int_of_n (f_seq f))) :: !r;
+             if f_start f <> (i = 0) || f_end f <> (i = n - 1) || f_fail f then
+               r := Propfail ("bbc.train.marks", Printf.sprintf "Send with a foreign failure report pending: fragment %d of %d: start/end/fail marks wrong" i n) :: !r) fo
+       end;
        if not (s_bool err_own) || s_int nfw <> 0 then
          r := Propfail ("bbc.send.failure-ignored", "a peer's failure fragment for the transmission did not make Send return an error") :: !r
      | _ -> raise (Bad "sendfail entry"));
     if !r = [] then [Ok_ ["send"]] else !r
   | _ -> raise (Bad "send case")
+
+(* ---- Connector.Send while failure reports are pending / arrive in the middle of the train ---- *)
+let rec frags_prefix a b = match a, b with
+  | [], _ -> true
+  | x :: a, y :: b -> fragment_eqb x y && frags_prefix a b
+  | _ :: _, [] -> false
+
+let sendpend = function
+  | [_; Atom "probe-failed"] -> [Propfail ("bbc.send.error", "the first Send on a fresh Connector errored or produced no fragment")]
+  | [mtu; Atom "ok"; timeout; sends] ->
+    let mtu = s_int mtu in
+    let r = ref [] and tags = ref ["sendpend"] in
+    let tag t = if not (List.mem t !tags) then tags := t :: !tags in
+    if s_bool timeout then r := Mismatch "harness: a Send did not end" :: !r;
+    List.iteri (fun i s -> match lst s with
+        | blob :: tid :: pre :: mid :: err :: frags :: _left :: rest ->
+          let saw_end = match rest with [e] -> e | _ -> Atom "0" in
+          let blob = s_bytes blob and tid = s_n tid and err = s_bool err in
+          let pre = List.map s_n (lst pre) and mid = List.map s_n (lst mid) in
+          let fs = List.map frag_of_s (lst frags) in
+          let own_pre = List.mem tid pre and own_mid = List.mem tid mid in
+          let what = Printf.sprintf "Send %d (id %d, %d reports queued before, %d injected in the middle)" (i + 1) (int_of_n tid) (List.length pre) (List.length mid) in
+          let add k d = r := Propfail (k, what ^ ": " ^ d) :: !r in
+          if pre <> [] then tag (if own_pre then "own-report-queued" else "other-reports-queued");
+          if mid <> [] then tag (if own_mid then "own-report-mid-train" else "other-reports-mid-train");
+          if List.length pre >= 64 then tag "report-queue-full";
+          if own_pre || own_mid then begin
+            if not err then add "bbc.send.failure-ignored" "a peer's failure fragment for the transmission did not make Send return an error";
+            if s_bool saw_end || List.exists (fun f -> f_end f) fs then add "bbc.send.failure-ignored" "the train was completed although the peer had reported its failure";
+            if own_pre && fs <> [] then r := Mismatch (what ^ ": fragments were emitted although the failure report was queued before the Send") :: !r;
+            (match out_fragments tid (nat_of_int (mtu - 2)) blob with
+             | Some mfs when frags_prefix fs mfs -> ()
+             | _ -> add "bbc.train.sequence" "the fragments emitted before the abort are not a prefix of the train")
+          end else begin
+            if err then add "bbc.send.spurious-failure" "failure reports for other transmission ids made Send fail"
+            else begin
+              (* one verdict per failing class is enough *)
+              let seen = ref [] in
+              let vs = List.filter (function
+                  | Propfail (k, _) -> if List.mem k !seen then false else (seen := k :: !seen; true)
+                  | _ -> true) (List.rev (check_train ~tid:(Some tid) ~mtu ~blob fs) @ model_train tid mtu blob fs "sendpend") in
+              r := List.map (function Propfail (k, d) -> Propfail (k, what ^ ": " ^ d) | v -> v) vs @ !r
+            end
+          end
+        | _ -> raise (Bad "sendpend entry")) (lst sends);
+    if !r = [] then [Ok_ (List.rev !tags)] else List.rev !r
+  | _ -> raise (Bad "sendpend case")
 
 (* ---- reception ---- *)
 type tr = { tid : n; blob : n list; bndl : n list; frags : fragment array }
@@ -211,4 +266,5 @@ let rx = function
 let () =
   register "C12bbc" "train" train;
   register "C12bbc" "send" send;
+  register "C12bbc" "sendpend" sendpend;
   register "C12bbc" "rx" rx
